@@ -20,8 +20,8 @@ func family(tier string) []*graph {
 	for G := 1; G <= 3; G++ {
 		// count vectors over (type, generation) with entries 0..2 and a node cap; at least one Input node (the
 		// simulation length comes from a stored input) in generation 0
-		slots := 5 * G
-		var cur [5][maxGen]int
+		slots := nEnumTypes * G
+		var cur [6][maxGen]int
 		var rec func(s, used int)
 		emit := func() {
 			base := graph{G: G, Counts: cur, T: 3, WithOutput: true}
@@ -31,7 +31,7 @@ func family(tier string) []*graph {
 			// every generation non-empty (a generation without nodes does not occur in valid files)
 			for gen := 0; gen < G; gen++ {
 				n := 0
-				for t := 0; t < 5; t++ {
+				for t := 0; t < nEnumTypes; t++ {
 					n += base.Counts[t][gen]
 				}
 				if n == 0 {
@@ -40,7 +40,7 @@ func family(tier string) []*graph {
 			}
 			// candidate edges
 			var nodes []nodeRef
-			for t := 0; t < 5; t++ {
+			for t := 0; t < nEnumTypes; t++ {
 				for gen := 0; gen < G; gen++ {
 					for k := 0; k < base.Counts[t][gen]; k++ {
 						nodes = append(nodes, nodeRef{t, gen, k})
@@ -126,6 +126,71 @@ func family(tier string) []*graph {
 		v5.Reversed = true
 		out = append(out, &v5)
 	}
+	return append(out, dimensionedFamily(tier)...)
+}
+
+// dimensionedFamily: graphs with nodes of the type whose parameter is a table. Every distribution of 2..3 (thorough 4)
+// such nodes over 2..3 generations x two assignments of table lengths to rows (so that the longest table sits in
+// different generations, and some generation holds only shorter tables) x {stored inputs, one link from the Input
+// node to each later node, one link from each node to a Sum node in the last generation}.
+func dimensionedFamily(tier string) []*graph {
+	maxNodes := 3
+	if tier == "thorough" {
+		maxNodes = 4
+	}
+	var out []*graph
+	for G := 2; G <= 3; G++ {
+		var cnt [maxGen]int
+		var rec func(gen, used int)
+		rec = func(gen, used int) {
+			if gen < G {
+				for c := 0; c <= 2 && used+c <= maxNodes; c++ {
+					cnt[gen] = c
+					rec(gen+1, used+c)
+				}
+				cnt[gen] = 0
+				return
+			}
+			if used < 2 {
+				return
+			}
+			for _, lens := range [][]int{{3, 2, 4, 2}, {2, 4, 3, 3}, {4, 2, 2, 3}} {
+				base := graph{G: G, T: 3, WithOutput: true, TableLens: lens}
+				base.Counts[0][0] = 1
+				for gen := 0; gen < G; gen++ {
+					base.Counts[dimType][gen] = cnt[gen]
+				}
+				stored := base
+				stored.StoredInputs = true
+				out = append(out, &stored)
+				rev := stored
+				rev.Reversed = true
+				out = append(out, &rev)
+				// a Sum node in the last generation collecting output 0 of every dimensioned node of earlier generations
+				withSum := stored
+				withSum.Counts[1][G-1] = 1
+				for gen := 0; gen < G-1; gen++ {
+					for k := 0; k < cnt[gen]; k++ {
+						withSum.Links = append(withSum.Links, glink{nodeRef{dimType, gen, k}, k % 2, nodeRef{1, G - 1, 0}, k % 2})
+					}
+				}
+				if len(withSum.Links) > 0 {
+					out = append(out, &withSum)
+				}
+				// the Input node feeding each dimensioned node of a later generation (no stored inputs for them)
+				for gen := 1; gen < G; gen++ {
+					for k := 0; k < cnt[gen]; k++ {
+						fed := base
+						fed.Links = []glink{{nodeRef{0, 0, 0}, 0, nodeRef{dimType, gen, k}, 0}}
+						if cnt[0] == 0 { // without stored inputs a dimensioned node in generation 0 would have no series
+							out = append(out, &fed)
+						}
+					}
+				}
+			}
+		}
+		rec(0, 0)
+	}
 	return out
 }
 
@@ -208,7 +273,7 @@ func (e *enum) Run(i int64, r *vf.Rec) {
 func Spec() *vf.Check {
 	return &vf.Check{
 		ID: "C07", Level: "model_checking", BlockSize: 1, HangSeconds: 7200, Pre: tlaPre,
-		Rule: "(i) every model graph of a bounded family (generations 1..3; 0..2 nodes per (type, generation) over the palette Input/Sum/FixedPartition/RunoffCoefficient/Muskingum, node cap 3 (thorough 4); every multiset of at most 2 (3) links between an output and an input of a later generation, so fan-in, fan-out, repeated links, types without nodes and types without stored inputs occur; plus T=1, stored inputs for all types, the four output-selection flags, no-output-file and reversed /META/models order variants) is run through the real run_simulation under the controlled scheduler's default schedule and every dataset of the output file is compared bit-for-bit with a sequential reference interpreter; " +
+		Rule: "(i) every model graph of a bounded family (generations 1..3; 0..2 nodes per (type, generation) over the palette Input/Sum/FixedPartition/RunoffCoefficient/Muskingum, node cap 3 (thorough 4); every multiset of at most 2 (3) links between an output and an input of a later generation, so fan-in, fan-out, repeated links, types without nodes and types without stored inputs occur; plus T=1, stored inputs for all types, the four output-selection flags (exact names, lists and look-alike names), no-output-file and reversed /META/models order variants; plus a sub-family with 2..3 (4) nodes of a type with a table-valued parameter (RatingCurvePartition, per-node table lengths 2..4 distributed over 2..3 generations in three ways, stored inputs / fed by the Input node / feeding a Sum node) is run through the real run_simulation under the controlled scheduler's default schedule and every dataset of the output file is compared bit-for-bit with a sequential reference interpreter; " +
 			"(ii) for 5 (6) graph shapes every schedule of main / model goroutines / writer goroutines that departs at most 2 (thorough 3) times from the default schedule (run the current thread while it can continue, else the lowest runnable thread; a departure is any other choice, preemptive or not) (scheduling points: spawn, channel operations, io lock operations, every fake-HDF5 call, Sleep as a yield) is executed with monitors M1 (no purge before write and links), M2 (no use after purge), M3 (written exactly once), M4 (all written before return), deadlock, data races (-race) and the final file compared with the reference; (iii) a TLA+ model of the writer hand-off checked by TLC with trace conformance in both directions (see the tla part).",
 		Assumptions: []string{"HDF5 is the in-memory stand-in fakehdf5", "link tables are sorted by source generation (as produced by the graph builder)", "the retry loops (token put back, Sleep) are explored up to the step horizon; schedules cut by the horizon are counted and make the exploration non-exhaustive for that shape"},
 		Build:       func(tier string) vf.Enumeration { return build(tier) },
